@@ -266,7 +266,7 @@ impl Exp {
         match o {
             Obs::Panic(_) => false,
             Obs::Err(_) => self.err,
-            Obs::Text(t) => self.texts.iter().any(|x| x == t),
+            Obs::Text(t) => self.texts.iter().any(|x| text_eq(x, t)),
             Obs::Num(g, u) => {
                 self.nums.iter().any(|(c, cu)| cu == u && close(*g, *c))
                     || self.range.as_ref().is_some_and(|(lo, hi, ru)| {
@@ -320,6 +320,53 @@ fn call_text(f: &str, form: &str, args: &[Arg]) -> String {
     let a: Vec<String> = args.iter().map(Arg::src).collect();
     let p = if form == "math" { "math." } else { "" };
     format!("{p}{f}({})", a.join(", "))
+}
+
+/// Two texts are the same unevaluated call when they differ only in how numbers
+/// are printed (numbers print with at most 16 significant digits): split into
+/// numerals and the text between them; texts equal, numerals within 1e-14 relative.
+fn text_eq(a: &str, b: &str) -> bool {
+    fn split(s: &str) -> (Vec<String>, Vec<f64>) {
+        let mut texts = vec![String::new()];
+        let mut nums = Vec::new();
+        let cs: Vec<char> = s.chars().collect();
+        let mut i = 0;
+        while i < cs.len() {
+            let c = cs[i];
+            let starts = c.is_ascii_digit()
+                || (c == '.' && cs.get(i + 1).is_some_and(|d| d.is_ascii_digit()))
+                || (c == '-'
+                    && cs.get(i + 1).is_some_and(|d| d.is_ascii_digit() || *d == '.')
+                    && !texts.last().is_some_and(|t| t.ends_with(|p: char| p.is_alphanumeric() || p == '-' || p == '_')));
+            if starts {
+                let mut j = i + 1;
+                while j < cs.len() && (cs[j].is_ascii_digit() || cs[j] == '.') {
+                    j += 1;
+                }
+                let t: String = cs[i..j].iter().collect();
+                match t.parse::<f64>() {
+                    Ok(v) => {
+                        nums.push(v);
+                        texts.push(String::new());
+                    }
+                    Err(_) => texts.last_mut().unwrap().push_str(&t),
+                }
+                i = j;
+            } else {
+                texts.last_mut().unwrap().push(c);
+                i += 1;
+            }
+        }
+        (texts, nums)
+    }
+    if a == b {
+        return true;
+    }
+    let (ta, na) = split(a);
+    let (tb, nb) = split(b);
+    ta == tb
+        && na.len() == nb.len()
+        && na.iter().zip(&nb).all(|(x, y)| x == y || (x - y).abs() <= 1e-14 * x.abs().max(y.abs()))
 }
 
 fn deferred_text(f: &str, args: &[Arg]) -> String {
@@ -864,7 +911,7 @@ fn check(c: &Case) -> Verdict {
     if matches!(c.f.as_str(), "min" | "max") {
         let s = situation(&c.args);
         let v = rsass_find_extreme(&c.args, c.f == "min");
-        if v == Variant::Deferred && obs == Obs::Text(deferred_text(&c.f, &c.args)) {
+        if v == Variant::Deferred && matches!(&obs, Obs::Text(t) if text_eq(t, &deferred_text(&c.f, &c.args))) {
             let sig = if s.has_nan && s.classes.len() <= 1 {
                 "minmax-nan-left-unevaluated"
             } else if s.definitely_incompatible {
@@ -882,7 +929,7 @@ fn check(c: &Case) -> Verdict {
     if c.f == "clamp" && c.form == "global" && c.args.len() == 3 {
         if clamp_definitely_incompatible(&c.args)
             && rsass_global_clamp_defers(&c.args)
-            && obs == Obs::Text(deferred_text("clamp", &c.args))
+            && matches!(&obs, Obs::Text(t) if text_eq(t, &deferred_text("clamp", &c.args)))
         {
             return Verdict::fail_sig("global-clamp-number-and-max-not-checked", detail);
         }
